@@ -5,6 +5,7 @@
 -/
 import Xc.Thm.C19Core
 import Xc.Thm.C01
+import Xc.Thm.C10
 import Xc.Thm.C19c.Chunk00
 import Xc.Thm.C19c.Chunk01
 import Xc.Thm.C19c.Chunk02
@@ -208,5 +209,23 @@ theorem C19_roundtrip_every_config (en : Method → Bool) (dflt : Option Bytes) 
   have hT := C19_tableOk (encode en) hlt
   rw [hen] at hT
   exact C01.C01_roundtrip _ hT D hD p s H h
+
+/-- **C10 in every configuration**: whatever subset of the methods is enabled, a setting returned by `crypt_gensalt_rn` is
+    passwd-safe, selects the same table row as the prefix it was generated for, and `crypt` of any phrase (shorter than 512 bytes)
+    with it succeeds with a hash that begins with the generated setting (bigcrypt without descrypt: with its two salt characters) -/
+theorem C19_gensalt_accepted_every_config (en : Method → Bool) (dflt : Option Bytes) (d : Bool) (D : Digests) (hD : D.WF)
+    (hst : ∀ f, D.bfSelfTest f = true) (pfx : Option Bytes) (count : Nat) (rb : Option Bytes) (nrb osize : Int) (os : Nat → Bytes) (S : Bytes)
+    (h : (gensaltRn { table := mkTable Gen.hashesConf en, dflt := dflt, descryptOn := d } pfx count rb nrb osize os).ret = some S)
+    (p : Bytes) (hp : p.length < Gen.CRYPT_MAX_PASSPHRASE_SIZE) (hk : C10.KdfOk D p) :
+    passwdSafe S = true ∧ ∃ H, cryptPure { table := mkTable Gen.hashesConf en, dflt := dflt, descryptOn := d } D p S = .ok H ∧ S.take 2 <+: H := by
+  obtain ⟨hlt, heq⟩ := subsetOf_encode en
+  have hen : subsetOf (encode en) = en := funext heq
+  have hT := C19_tableOk (encode en) hlt
+  rw [hen] at hT
+  obtain ⟨hs, r, H, _, _, hH, hpre⟩ := C10.C10_api _ hT (C10.mkTable_same _ _) D hD hst pfx count rb nrb osize os S h p hp hk
+  refine ⟨hs, H, hH, ?_⟩
+  split at hpre
+  · exact hpre
+  · exact (List.take_prefix 2 S).trans hpre
 
 end Xc.C19
